@@ -2,6 +2,17 @@
 from __future__ import annotations
 
 PROPS: dict[str, dict] = {
+    "C06": {
+        "modules": ["meta"],
+        "assumptions": ["leaf relations declare truthful columns and row bounds (hypothesis of the property)",
+                        "laws of tier L (length/columns of the row-sequence operators), see spec/laws.py"],
+        "explanation": "truthfulness of columns/min_rows/max_rows as attribute contracts proved per operation class; flags imply content",
+    },
+    "C13": {
+        "modules": ["predicates"],
+        "assumptions": ["expression semantics of DESIGN 3.1 (integer rows, two-valued logic)"],
+        "explanation": "as_trivial / flatten_logical_and / logical_and / columns_required against the spec functions ev, fv",
+    },
     "C05": {
         "modules": ["op_slice"],
         "assumptions": [],
